@@ -36,6 +36,23 @@ Theorem c17_only_ancestral_genomes_created : forall t fo s o x,
 Proof. exact new_genomes. Qed.
 Print Assumptions c17_only_ancestral_genomes_created.
 
+(* the listings of Ham.get_list_extant_genomes / get_list_ancestral_genomes after any call history whose lateral
+   comparisons take genomes that exist: the extant listing is the one of the fresh analysis; the ancestral listing
+   is the fresh one plus internal nodes of the tree (the permitted side effect: taxa without genes start to appear
+   as empty ancestral genomes - their gene content is a function of the unchanged forest) *)
+Theorem c17_extant_listing_unchanged : forall t fo ops s,
+  Forall (fun p => valid t p = true) (ss_genomes s) -> args_ok (ss_genomes s) ops ->
+  extant_listing t (srun t fo ops s) = extant_listing t s.
+Proof. exact extant_listing_stable. Qed.
+Print Assumptions c17_extant_listing_unchanged.
+
+Theorem c17_ancestral_listing_only_grows : forall t fo ops s,
+  Forall (fun p => valid t p = true) (ss_genomes s) -> args_ok (ss_genomes s) ops ->
+  exists extra, ancestral_listing t (srun t fo ops s) = ancestral_listing t s ++ extra /\
+                Forall (fun p => is_leaf t p = false /\ valid t p = true) extra.
+Proof. exact ancestral_listing_grows. Qed.
+Print Assumptions c17_ancestral_listing_only_grows.
+
 Definition m0 : hmeta := {| m_id := None; m_og := None; m_props := []; m_scores := []; m_synth := false |}.
 Definition tr : stree :=
   SNode "R" [SNode "X" []; SNode "M" [SNode "E" [SNode "H" []; SNode "P" []]; SNode "C" []]].
@@ -50,5 +67,7 @@ Example c17_nonvacuous :
   let s0 := sinit [[1]; [0; 1]; [0; 0; 1]; [1; 0; 1]; [1; 1]] in
   List.length (ss_maps (srun tr fo0 ops s0)) = 6 /\
   ss_genomes (srun tr fo0 ops s0) = [[1]; [0; 1]; [0; 0; 1]; [1; 0; 1]; [1; 1]; []] /\
-  is_leaf tr [0] = true.
+  is_leaf tr [0] = true /\
+  extant_listing tr (srun tr fo0 ops s0) = [[0; 0; 1]; [1; 0; 1]; [1; 1]] /\
+  ancestral_listing tr (srun tr fo0 ops s0) = [[1]; [0; 1]; []].
 Proof. vm_compute. repeat split; reflexivity. Qed.
